@@ -301,6 +301,12 @@ def make_layout(name: str) -> Layout:
                       funcs=[(0, ["cols:{cols}", "all"], ["cols"]), (0, ["cols:{cols}"], ["cols"]),
                              (1, ["all", "opts:{opts}"], ["opts"])],
                       patterns=["r:a*", "q:*", "r:*z", "r:*"])
+    if name == "nl":
+        # argument values that contain line breaks: the registry's regular expression has to take them in (a field is
+        # `.+`: with re.DOTALL), or the on-remove pruning skips the key and a later delete_tags deletes its re-creation
+        return Layout(name, ["n:{u}", "g:{u}"], {"u": ["a", "a\nb", "c\n"]}, ["nt:{u}", "all"],
+                      regs=[("nt:{u}", "n:{u}"), ("all", "n:{u}")],
+                      funcs=[(1, ["nt:{u}"], ["u"])], patterns=["n:*", "g:a*"])
     if name == "strat":
         # every decorator that takes tags= (cashews/wrapper/decorators.py: cache, early, soft, hit, dynamic), each with
         # its own key family; the per-argument tag tg:{x} is shared by the families (same x), `all` by some of them; a
@@ -488,6 +494,10 @@ class Runner:
                 return runner.body_val
         elif argnames == ["user"]:
             async def fn(user):
+                runner.body_ran = True
+                return runner.body_val
+        elif argnames == ["u"]:
+            async def fn(u):
                 runner.body_ran = True
                 return runner.body_val
         elif argnames == ["x"]:
@@ -989,6 +999,70 @@ def execute(cfg: str, layout: Layout, ops: list[str]) -> Runner:
     r = Runner(cfg, layout)
     vtime.run(r.run, ops)
     return r
+
+
+def prefix_middleware_probe():
+    """tags through a key-renaming middleware (cashews/helpers.py add_prefix): the commands the tag wrapper issues with a
+    positional key (set_add) and with a keyword key (set_pop) must address the same tag set, or delete_tags never finds
+    the members.  Returns None if a tagged key is unreadable after delete_tags, else a description.  (Only completeness
+    is probed: the on-remove callback reports the renamed key, which the registry does not know - pruning, hence the
+    precision clause, is outside what a renaming middleware supports.)"""
+    from cashews import Cache
+    from cashews.helpers import add_prefix
+
+    async def go():
+        cache = Cache()
+        cache.setup("mem://?size=1000&check_interval=0", middlewares=(add_prefix("P:"),))
+        cache.register_tag("pt", "pk:{i}")
+        await cache.init()
+        await cache.set("pk:A", "t1", expire=100, tags=["pt"])
+        await cache.incr("pk:B", 1, tags=["pt"])
+        await cache.delete_tags("pt")
+        got = [await cache.get("pk:A", default=None), await cache.get("pk:B", default=None)]
+        await cache.close()
+        return got
+
+    got = vtime.run(go)
+    if got != [None, None]:
+        return {"middleware": "add_prefix('P:')", "ops": ["set pk:A t1 ttl=100 tags=[pt]", "incr pk:B tags=[pt]", "delete_tags pt", "get pk:A", "get pk:B"],
+                "observed": [repr(x) for x in got], "expected": ["None", "None"]}
+    return None
+
+
+def not_judged_probes() -> dict:
+    """two behaviours reported against C12 that lie outside its alphabet (expire(), transactions): run once per check and
+    recorded as observations, never judged.  True = the key survived delete_tags."""
+    from cashews import Cache
+
+    async def go():
+        out = {}
+        cache = Cache()
+        cache.setup("mem://?size=1000&check_interval=0")
+        cache.register_tag("t", "k")
+        await cache.init()
+        await cache.set("k", 1, expire=10, tags=["t"])
+        await cache.expire("k", 100)          # moves the key's deadline, not the tag set's
+        CLOCK.advance(160)
+        await cache.delete_tags("t")
+        out["expire_moves_key_past_its_tag_set_then_delete_tags_misses_it"] = await cache.get("k") is not None
+        await cache.close()
+        cache = Cache()
+        cache.setup("mem://?size=1000&check_interval=0")
+        cache.register_tag("t", "k")
+        await cache.init()
+        await cache.set("k", 1, tags=["t"])
+        try:
+            async with cache.transaction() as tx:
+                await cache.delete_tags("t")  # set_pop is not buffered by the transaction: the membership is gone for good
+                await tx.rollback()
+            await cache.delete_tags("t")
+            out["delete_tags_in_rolled_back_transaction_loses_membership"] = await cache.get("k") is not None
+        except Exception as exc:  # noqa: BLE001
+            out["delete_tags_in_rolled_back_transaction_loses_membership"] = f"X:{type(exc).__name__}"
+        await cache.close()
+        return out
+
+    return vtime.run(go)
 
 
 def batch_literal() -> int:
